@@ -6,6 +6,7 @@ the same description computed from the schema IR, an identity map of the attribu
 transformations must preserve, and the closure invariant of the type graph.
 """
 import collections
+import re
 import copy
 
 from ..gen import schemair as S
@@ -365,3 +366,83 @@ def annotate_defaults(ir):
     for d in ir.directives.values():
         for a in d.args:
             ann(a)
+
+
+# ---------------------------------------------------------------------------
+# number-like strings of transparent custom scalars (known finding of C12 / C15)
+# ---------------------------------------------------------------------------
+_CANON_INT = re.compile(r"^-?(0|[1-9][0-9]*)\Z")
+
+
+def respelled_numberlike(text):
+    """What the library's printer makes of a custom-scalar string that python's float() accepts: the text itself
+    when it is a canonical integer, else the repr of the float (pinned by tests/test_utilities/test_ast_node_from_value.py).
+    None when the string is not number-like (or not finite)."""
+    import math
+
+    if not isinstance(text, str):
+        return None
+    if _CANON_INT.match(text):
+        return text
+    try:
+        fl = float(text)
+    except ValueError:
+        return None
+    if not math.isfinite(fl):
+        return None
+    return str(fl)
+
+
+def numberlike_scalar_strings(ir):
+    """Number-like strings that occur at transparent custom scalar positions of declared defaults."""
+    out = set()
+
+    def walk(t, v):
+        if v is None:
+            return
+        if t[0] == "nonnull":
+            return walk(t[1], v)
+        if t[0] == "list":
+            if isinstance(v, list):
+                for x in v:
+                    walk(t[1], x)
+            else:
+                walk(t[1], v)
+            return
+        st = ir.types.get(t[1])
+        if st is None:
+            return
+        if st.kind == "scalar" and not st.strict:
+            if isinstance(v, str) and respelled_numberlike(v) not in (None, v):
+                out.add(v)
+        elif st.kind == "input" and isinstance(v, dict):
+            for f in st.input_fields:
+                if f.name in v:
+                    walk(f.type, v[f.name])
+                elif f.has_default:
+                    walk(f.type, f.default)
+
+    def inputs(ins):
+        for a in ins:
+            if a.has_default:
+                walk(a.type, a.default)
+
+    for t in ir.types.values():
+        for f in t.fields:
+            inputs(f.args)
+        inputs(t.input_fields)
+    for d in ir.directives.values():
+        inputs(d.args)
+    return out
+
+
+def respell(value, strings):
+    """Copy of a canonical description (or any nested python value) in which the given strings are replaced by
+    their respelling."""
+    if isinstance(value, dict):
+        return type(value)((k, respell(v, strings)) for k, v in value.items())
+    if isinstance(value, (list, tuple)):
+        return type(value)(respell(v, strings) for v in value)
+    if isinstance(value, str) and value in strings:
+        return respelled_numberlike(value)
+    return value
